@@ -20,7 +20,7 @@ def run(tier):
     quick = tier == "quick"
     seed = ck.seed
     sets = optrun.option_sets(ck)
-    docs_ = optrun.documents(40 if quick else 80, seed + 6, ck, corpus_n=15 if quick else 10**6, tag="c06docs")
+    docs_ = optrun.documents(40 if quick else 80, seed + 6, ck, corpus_n=15 if quick else 10**6, tag="c06docs", special_slots=True)
     cover = optrun.pairwise_cover(sets, seed, extra=8)
     loads = impl.loader(expand_includes=False)
     records, meta = [], {}
@@ -33,6 +33,8 @@ def run(tier):
         except Exception:  # noqa: BLE001
             continue                    # C01's business
         use = cover if (quick or is_corpus) else sets
+        if tid.startswith("slot:"):
+            use = cover[:8] if quick else cover
         for oi, o in enumerate(use):
             itn = tracecheck.Interner()
             rec = {"tid": "%s|%d" % (tid, oi), "what": "options", "opts": o, "dflt": itn.value(project.project(base))}
